@@ -209,6 +209,10 @@ EXTRA["C12"] = EXTRA.get("C12", []) + [
     M("leaf-script-reencoded", "witness.py", "            tap_script.raw = raw_tap_script\n", "            pass\n", ["C12.22"], "leaf script hashed in its minimal re-encoding (F47 undone)"),
 ]
 
+EXTRA["C16"] = EXTRA.get("C16", []) + [
+    M("xfp-reader-lowercase-only", "descriptor.py", "[0-9a-fA-F]{8})\\*?", "[0-9a-f]{8})\\*?", ["C16.18"], "key-record reader refuses upper-case fingerprints the constructor writes (F49 undone)"),
+]
+
 EXTRA["C13"] = EXTRA.get("C13", []) + [
     M("musig-single-key-indexerror", "taproot.py", "        if len(self.coefs) > 1:\n            self.coefs[1] = 1\n", "        self.coefs[1] = 1\n", ["C13.1"], "single-key aggregate raises (F48 undone)"),
 ]
